@@ -82,7 +82,7 @@ def run_case(task):
         for u in ex.undecided: res['undecided'].append((u[0], str(u[1])[:400]))
         if ex.undecided and res['verdict'] == 'PROVED': res['verdict'] = 'UNDECIDED'
         # vacuity guard
-        missing = [lab for lab in ob.get('expect', []) if not ex.reached.get(lab)]
+        missing = []          # expected labels are checked per obligation over all of its cases (in main)
         ends = sum(v for k, v in ex.reached.items() if k in ('__path_END',) or (k == '__path_THROW' and ob.get('allow_throw')))
         if res['verdict'] == 'PROVED' and (missing or not ends):
             res['verdict'] = 'VACUOUS'; res['undecided'].append(('vacuity', 'not reached: %r; completed paths: %d' % (missing, ends)))
@@ -207,6 +207,15 @@ def main(argv):
             results.append(r)
             print('  [%s] %s  wall=%ss %s' % (r['id'], r['verdict'], r['wall'], '; '.join(str(u[1])[:160] for u in r['undecided'][:2])), flush=True)
     results.sort(key=lambda r: (r['id'], r['case']))
+    # vacuity guard per obligation: every expected assertion / reach marker must have been hit on a feasible path in some case
+    for o in obs:
+        rs = [r for r in results if r['id'] == o['id']]
+        if not rs or any(r['verdict'] == 'ENCODING-ERROR' for r in rs): continue
+        missing = [lab for lab in o.get('expect', []) if not any(r['reached'].get(lab) for r in rs)]
+        if missing:
+            for r in rs:
+                if r['verdict'] == 'PROVED': r['verdict'] = 'VACUOUS'; r['undecided'].append(('vacuity', 'never reached in any case: %r' % missing))
+            print('  [%s] VACUOUS: never reached: %r' % (o['id'], missing))
     known = load_known(); exit_code = 0; nviol = 0; known_hit = []
     os.makedirs(os.path.join(VERIF, 'replay', prop), exist_ok=True)
     obmap = {o['id']: o for o in spec.OBLIGATIONS}
